@@ -7,25 +7,24 @@ namespace ShVerif.C26
 open ShVerif.L5 ShVerif.L5.Bash
 
 /-- The static context of a loop body. -/
-def bodyK (K : SCtx) (isFor : Bool) : SCtx :=
-  { K with tl := true :: K.tl, inFor := if isFor then true else K.inFor }
+def bodyK (K : SCtx) : SCtx := { K with tl := true :: K.tl }
 
-theorem Stat.body {K : SCtx} {k : Ctx} {sub : Bool} (h : Stat K k sub) (isFor : Bool) :
-    Stat (bodyK K isFor) { k with depth := k.depth + 1 } sub :=
+theorem Stat.body {K : SCtx} {k : Ctx} {sub : Bool} (h : Stat K k sub) :
+    Stat (bodyK K) { k with depth := k.depth + 1 } sub :=
   ⟨h.kt, h.kign, h.knign, h.kfn, by have := h.depth; simp [bodyK]; omega, h.top⟩
 
-theorem Dyn.body {K : SCtx} {k : Ctx} {sub : Bool} {s : St} (h : Dyn K k sub s) (isFor : Bool) :
-    Dyn (bodyK K isFor) { k with depth := k.depth + 1 } sub { s with inLoop := true } :=
+theorem Dyn.body {K : SCtx} {k : Ctx} {sub : Bool} {s : St} (h : Dyn K k sub s) :
+    Dyn (bodyK K) { k with depth := k.depth + 1 } sub { s with inLoop := true } :=
   ⟨h.cerr, h.csub, h.fok, h.ht, h.eign, h.noe, h.sfn, fun _ => rfl⟩
 
 /-- Back from a loop body: `inLoop` is restored. -/
-theorem Dyn.unbody {K : SCtx} {k : Ctx} {sub : Bool} {s s1 : St} {isFor : Bool}
-    (h0 : Dyn K k sub s) (h : Dyn (bodyK K isFor) { k with depth := k.depth + 1 } sub s1) (x : Int)
+theorem Dyn.unbody {K : SCtx} {k : Ctx} {sub : Bool} {s s1 : St}
+    (h0 : Dyn K k sub s) (h : Dyn (bodyK K) { k with depth := k.depth + 1 } sub s1) (x : Int)
     (y : Int) :
     Dyn K k sub { s1 with inLoop := s.inLoop, breakEnclosing := x, contnEnclosing := y } :=
   ⟨h.cerr, h.csub, h.fok, h.ht, h.eign, h.noe, h.sfn, h0.inl⟩
 
-theorem Levels.pred {K : SCtx} {isFor : Bool} {m : Nat} (h : Levels (bodyK K isFor) (m + 2)) :
+theorem Levels.pred {K : SCtx} {m : Nat} (h : Levels (bodyK K) (m + 2)) :
     Levels K (m + 1) := by
   obtain ⟨_, h2, h3⟩ := h
   simp only [bodyK, List.length_cons] at h2
@@ -33,7 +32,7 @@ theorem Levels.pred {K : SCtx} {isFor : Bool} {m : Nat} (h : Levels (bodyK K isF
   exact ⟨by omega, by omega, h3⟩
 
 /-- Result of one iteration. -/
-def IterRel (K : SCtx) (k : Ctx) (sub : Bool) (isFor : Bool) (z w : Prop) (s3 : St) :
+def IterRel (K : SCtx) (k : Ctx) (sub : Bool) (z w : Prop) (s3 : St) :
     Option (St × Bool) → Res → Prop
   | none, none => True
   | some (s4, br), some (fl, e2) =>
@@ -41,7 +40,7 @@ def IterRel (K : SCtx) (k : Ctx) (sub : Bool) (isFor : Bool) (z w : Prop) (s3 : 
         NoPending s4 ∧ e2 = absEnv s4 ∧ e2.status = s4.exit.code ∧ s4.lastExit = s4.exit ∧
         (z → s4.exit.code = 0) ∧ (w → Quiet s4)) ∨
     ((afterBody fl).1 = true ∧ Post K k sub False True s3 s4 (afterBody fl).2 e2 ∧
-        (br = true ∨ stop s4 = true) ∧ (isFor = true → (afterBody fl).2 ≠ .ret))
+        (br = true ∨ stop s4 = true))
   | _, _ => False
 
 theorem loopStmtsBroken_eq (f : Stmt → St → Option St) (b : Prog) (s : St) :
@@ -54,15 +53,15 @@ theorem loopStmtsBroken_eq (f : Stmt → St → Option St) (b : Prog) (s : St) :
   | none => rfl
   | some r => rfl
 
-theorem sim_iter {n : Nat} (hS : SimS n) (z w : Prop) {K : SCtx} {k : Ctx} {sub : Bool} (isFor : Bool)
+theorem sim_iter {n : Nat} (hS : SimS n) (z w : Prop) {K : SCtx} {k : Ctx} {sub : Bool}
     (b : Prog) (s3 : St) (hst : Stat K k sub) (hb0 : b.isNil = false)
-    (hsup : supBody (bodyK K isFor) b = true) (hzb : z → lastZero b = true)
+    (hsup : supBody (bodyK K) b = true) (hzb : z → lastZero b = true)
     (hwb : w → tailOk b = true)
     (hd : Dyn K k sub s3) (hl : LastOk s3) (hnf : NoFlags s3) (hnp : NoPending s3) :
-    IterRel K k sub isFor z w s3 (loopStmtsBroken (fun st => run n (.stmt st)) b s3)
+    IterRel K k sub z w s3 (loopStmtsBroken (fun st => run n (.stmt st)) b s3)
       (seqList (fun st => sem n { k with depth := k.depth + 1 } (.stmt st)) b (absEnv s3)) := by
-  have h0 := sim_body n hS z w b (bodyK K isFor) { k with depth := k.depth + 1 } sub
-    { s3 with inLoop := true } (hst.body isFor) hsup (hd.body isFor) hl hnf hnp
+  have h0 := sim_body n hS z w b (bodyK K) { k with depth := k.depth + 1 } sub
+    { s3 with inLoop := true } hst.body hsup hd.body hl hnf hnp
     (fun h => by rw [hb0] at h; cases h) (fun _ h => by rw [hb0] at h; cases h) hzb
     (fun _ h => by rw [hb0] at h; cases h) hwb
   have hae : absEnv { s3 with inLoop := true } = absEnv s3 := rfl
@@ -116,7 +115,7 @@ theorem sim_iter {n : Nat} (hS : SimS n) (z w : Prop) {K : SCtx} {k : Ctx} {sub 
             right
             simp only [afterBody, finishBody, hc]
             refine ⟨trivial, ⟨?_, ?_, ⟨h3.ne, rfl, h3.inf⟩, h4, ?_, hbk, hlv.pred, hz0,
-              fun h => h.elim⟩, Or.inl ?_, fun _ => by simp⟩
+              fun h => h.elim⟩, Or.inl ?_⟩
             · simp [absEnvC]
             · exact ⟨h2.cerr, h2.csub, h2.fok, h2.ht, h2.eign, h2.noe, h2.sfn, hd.inl⟩
             · show ((m'' + 1 + 1 : Nat) : Int) - 1 = ((m'' + 1 : Nat) : Int)
@@ -134,33 +133,28 @@ theorem sim_iter {n : Nat} (hS : SimS n) (z w : Prop) {K : SCtx} {k : Ctx} {sub 
           | zero =>
             simp only [afterBody, finishBody, hbk]
             refine ⟨trivial, ⟨?_, ?_, ⟨h3.ne, rfl, h3.inf⟩, h4, ⟨by simp, hc⟩, fun h => h.elim,
-              fun _ hne => absurd hz0 hne⟩, Or.inl (by triv), fun _ => by simp⟩
+              fun _ hne => absurd hz0 hne⟩, Or.inl (by triv)⟩
             · simp [absEnvC]
             · exact ⟨h2.cerr, h2.csub, h2.fok, h2.ht, h2.eign, h2.noe, h2.sfn, hd.inl⟩
           | succ m'' =>
             simp only [afterBody, finishBody, hbk]
             refine ⟨trivial, ⟨?_, ?_, ⟨h3.ne, rfl, h3.inf⟩, h4, ?_, hc, hlv.pred, hz0,
-              fun h => h.elim⟩, Or.inl (by triv), fun _ => by simp⟩
+              fun h => h.elim⟩, Or.inl (by triv)⟩
             · simp [absEnvC]
             · exact ⟨h2.cerr, h2.csub, h2.fok, h2.ht, h2.eign, h2.noe, h2.sfn, hd.inl⟩
             · show ((m'' + 1 + 1 : Nat) : Int) - 1 = ((m'' + 1 : Nat) : Int)
               omega
       | ret =>
         have hs := hp.stopped (Or.inl rfl)
-        obtain ⟨h1, h2, h3, h5, hr', hfn, hfor, _, hex⟩ := hp
+        obtain ⟨h1, h2, h3, h5, hr', hfn, _, hex⟩ := hp
         right
         simp only [afterBody, finishBody]
-        cases isFor with
-        | true => simp [bodyK] at hfor
-        | false =>
-          have hfor' : K.inFor = false := by simpa [bodyK] using hfor
-          exact ⟨trivial, ⟨h1, ⟨h2.cerr, h2.csub, h2.fok, h2.ht, h2.eign, h2.noe, h2.sfn, hd.inl⟩,
-            ⟨h3.ne, rfl, h3.inf⟩, h5, hr', hfn, hfor', fun h => h.elim, hex⟩, Or.inr hs,
-            fun h => by cases h⟩
+        exact ⟨trivial, ⟨h1, ⟨h2.cerr, h2.csub, h2.fok, h2.ht, h2.eign, h2.noe, h2.sfn, hd.inl⟩,
+          ⟨h3.ne, rfl, h3.inf⟩, h5, hr', hfn, fun h => h.elim, hex⟩, Or.inr hs⟩
       | exit =>
         have hs := hp.stopped (Or.inr rfl)
         right
         simp only [afterBody, finishBody]
-        exact ⟨trivial, hp, Or.inr hs, fun _ => by simp⟩
+        exact ⟨trivial, hp, Or.inr hs⟩
 
 end ShVerif.C26
